@@ -277,7 +277,15 @@ def evalG (B : Backend) (op : String) (args : List Sx) (impl : Sx) : Option Outc
     let f : F ← dec f; let s : L ← dec s
     let m := evalLogged B f s
     let ms := enc m
+    -- the property's precondition: every node written at most once and every operation
+    -- returning as many values as it has targets; outside it the result depends on the order
+    -- of writes inside a layer, which is an open choice
+    let pd := f.toPlain
+    let pre := (pd.ins ++ pd.edges.flatMap (·.tgt)).eraseDups.length == (pd.ins ++ pd.edges.flatMap (·.tgt)).length &&
+      pd.edges.all (fun e => (opfn e.label (List.replicate e.src.length 0)).length == e.tgt.length) &&
+      s.length == pd.ins.length
     if ms == impl then pure { model := ms, agree := true, rel := "exact" }
+    else if !pre then pure { model := ms, agree := true, rel := "outside-precondition(multi-writer-or-arity)" }
     else match m, (unOk impl).bind (dec (α := L × List (List (Nat × L)))) with
       | .ok (mo, ml), some (io, il) =>
         -- outputs exact; the log as a multiset of (label, args) per call
